@@ -388,10 +388,13 @@ func (s *CDX) nodeToComponent(n *sbom.Node) *cdx.Component {
 			case int32(sbom.SoftwareIdentifierType_PURL):
 				c.PackageURL = n.Identifiers[idType]
 			case int32(sbom.SoftwareIdentifierType_CPE23):
-				c.CPE = n.Identifiers[idType]
+				if n.Identifiers[idType] != "" {
+					c.CPE = n.Identifiers[idType]
+				}
 			case int32(sbom.SoftwareIdentifierType_CPE22):
-				// TODO(degradation): Only one CPE is supported in CDX
-				if c.CPE == "" {
+				// TODO(degradation): Only one CPE is supported in CDX. The 2.3 form
+				// wins whenever it has a value, whatever the iteration order of the map.
+				if n.Identifiers[int32(sbom.SoftwareIdentifierType_CPE23)] == "" {
 					c.CPE = n.Identifiers[idType]
 				}
 			}
